@@ -20,6 +20,16 @@ def digest(t):
     return int(h & 0x3FFFFFFF)
 
 
+def overlap(a, b):
+    """do two buffers share a byte?  decided exactly (numpy solves the overlap problem); the effort is bounded, because the exact problem is
+    exponential in the worst case and runs inside C, where the per-case timeout cannot interrupt it: a pair too hard to decide within the
+    bound has overlapping extents and is taken to overlap (contiguous columns and columns of one 2-d block are decided at once)"""
+    try:
+        return bool(np.shares_memory(a, b, max_work=200000))
+    except Exception:        # numpy.exceptions.TooHardError
+        return bool(np.may_share_memory(a, b))
+
+
 class Heap:
     """projection of storage: class ids such that two buffers get the same id iff np.shares_memory says they overlap"""
 
@@ -32,7 +42,7 @@ class Heap:
             a = t.ndata[k]
             cid = None
             for b, c in self.arrs:
-                if np.shares_memory(a, b):
+                if overlap(a, b):
                     cid = c
                     break
             if cid is None:
@@ -174,7 +184,7 @@ def run(ctx):
     ctx.mc_expect_violation("MC_TreeHeap", "MC_TreeHeap.alias.cfg", "NoSharing", deadlock=False)
     ctx.mc_expect_violation("MC_TreeHeap", "MC_TreeHeap.inplace.cfg", "Pure", deadlock=False)
     cases, path = ctx.gen("Gen_TreeOps", "Gen_TreeOps.%s.cfg" % ctx.tier, seed=ctx.seed)
-    ctx.run_cases("pipelines", cases, path, execute, "Trace_TreeOps", keyfn, nontrivial, per_case_timeout=60)
+    ctx.run_cases("pipelines", cases, path, execute, "Trace_TreeOps", keyfn, nontrivial, per_case_timeout=(15 if ctx.tier == "quick" else 60))
     ctx.exhaustive = False
     ctx.assumptions += ["content equality is projected to a 30-bit CRC of every column's bytes, the comments and the source string",
                         "storage identity is projected with numpy.shares_memory over every column buffer plus the identity of the comments list",
